@@ -1025,8 +1025,85 @@ func resultSort(t types.Type) (string, vkind, int, bool) {
 	return "", 0, 0, false
 }
 
+// specRecursive: does the spec function (transitively) call itself?
+func specRecursive(fn *ssa.Function) bool {
+	seen := map[*ssa.Function]bool{}
+	var visit func(f *ssa.Function) bool
+	visit = func(f *ssa.Function) bool {
+		if seen[f] {
+			return false
+		}
+		seen[f] = true
+		for _, b := range f.Blocks {
+			for _, in := range b.Instrs {
+				if c, ok := in.(*ssa.Call); ok {
+					if callee, ok := c.Call.Value.(*ssa.Function); ok {
+						if callee == fn {
+							return true
+						}
+						if strings.HasPrefix(callee.Name(), "spec_") && visit(callee) {
+							return true
+						}
+					}
+				}
+			}
+		}
+		return false
+	}
+	return visit(fn)
+}
+
+// specBody evaluates the body of a spec function on the given arguments in heap h (no obligations are generated).
+func (fc *fnCtx) specBody(fn *ssa.Function, args []*val, h heap) *val {
+	g := fc.g
+	g.inlineSeq++
+	ch := g.newFnCtx(fn, fmt.Sprintf("s%d_", g.inlineSeq), fc.depth+1, fc)
+	ch.specMode = true
+	ch.entryReach, ch.entryHeap, ch.entryAC = "true", h.clone(), fc.curAC
+	for i, p := range fn.Params {
+		if i < len(args) {
+			a := *args[i]
+			a.ty = p.Type()
+			ch.vals[p] = &a
+		}
+	}
+	saveR, saveH, saveAC, saveB, saveCells := fc.curR, fc.curH, fc.curAC, fc.curB, fc.cells
+	ch.run()
+	fc.curR, fc.curH, fc.curAC, fc.curB, fc.cells = saveR, saveH, saveAC, saveB, saveCells
+	if len(ch.rets) == 0 {
+		return nil
+	}
+	mk := func(vs []*val) *val {
+		if len(vs) == 1 {
+			return vs[0]
+		}
+		return &val{k: kTuple, elems: vs}
+	}
+	body := mk(ch.rets[len(ch.rets)-1].vals)
+	for i := len(ch.rets) - 2; i >= 0; i-- {
+		body = fc.ite(ch.rets[i].reach, mk(ch.rets[i].vals), body)
+	}
+	return body
+}
+
 func (fc *fnCtx) pureCall(fn *ssa.Function, args []*val, h heap, guard string) *val {
 	g := fc.g
+	if strings.HasPrefix(fn.Name(), "spec_") && fn.Blocks != nil && !g.lite && guard != "#skip" && g.inQuant == 0 && len(g.specStack) < 6 && !g.specStack[fn] {
+		if rec, ok := g.w.specRec[fn]; !ok {
+			g.w.specRec[fn] = specRecursive(fn)
+			rec = g.w.specRec[fn]
+			_ = rec
+		}
+		if !g.w.specRec[fn] {
+			// non-recursive spec functions are macros
+			g.specStack[fn] = true
+			body := fc.specBody(fn, args, h)
+			delete(g.specStack, fn)
+			if body != nil {
+				return body
+			}
+		}
+	}
 	{
 		// parameter types (external functions have no ssa Params: use the signature)
 		var ptys []types.Type
@@ -1142,30 +1219,9 @@ func (fc *fnCtx) pureCall(fn *ssa.Function, args []*val, h heap, guard string) *
 		if !g.specDefs[key] {
 			g.specDefs[key] = true
 			g.specStack[fn] = true
-			g.inlineSeq++
-			ch := g.newFnCtx(fn, fmt.Sprintf("s%d_", g.inlineSeq), fc.depth+1, fc)
-			ch.specMode = true
-			ch.entryReach, ch.entryHeap, ch.entryAC = "true", h.clone(), fc.curAC
-			for i, p := range fn.Params {
-				a := *args[i]
-				a.ty = p.Type()
-				ch.vals[p] = &a
-			}
-			saveR, saveH, saveAC, saveB := fc.curR, fc.curH, fc.curAC, fc.curB
-			ch.run()
-			fc.curR, fc.curH, fc.curAC, fc.curB = saveR, saveH, saveAC, saveB
+			body := fc.specBody(fn, args, h)
 			delete(g.specStack, fn)
-			if len(ch.rets) > 0 {
-				mk := func(vs []*val) *val {
-					if len(vs) == 1 {
-						return vs[0]
-					}
-					return &val{k: kTuple, elems: vs}
-				}
-				body := mk(ch.rets[len(ch.rets)-1].vals)
-				for i := len(ch.rets) - 2; i >= 0; i-- {
-					body = fc.ite(ch.rets[i].reach, mk(ch.rets[i].vals), body)
-				}
+			if body != nil {
 				if eq, err := eqTerm(out, body); err == nil {
 					g.assume(eq)
 				}
